@@ -1,5 +1,6 @@
 (* C14 — to_thread.run_sync: faithful results, bounded threads, cancellation handled (PARTIAL: the OS thread
-   is an oracle — ops ThreadStart / ThreadFinish w payload / ThreadReturn w / ThreadCheckCancelled are chosen by the environment).
+   is an oracle — ops ThreadStart / ThreadFinish w payload / ThreadReturn w / ThreadCheckCancelled / ThreadRunAsync, and SpawnFail /
+   NativeCancel on the caller's side, are chosen by the environment).
    This file contains only statements closed by `exact` and their Print Assumptions. *)
 From AV Require Import Base Threads ThreadsProofs.
 
@@ -10,13 +11,29 @@ Theorem C14_token_held_while_running : forall tot pr s c,
 Proof. exact rs_token_held_while_running. Qed.
 Print Assumptions C14_token_held_while_running.
 
-(* bounded threads: #(executing, non-abandoned) <= #borrowed tokens, and <= total unless the total was lowered *)
+(* bounded threads: #(executing functions whose caller still waits) <= #borrowed tokens, and <= total whenever the
+   limiter is not over-full.  (No sticky "total was never lowered" guard: see C14_no_grant_while_full.) *)
 Theorem C14_running_le_total : forall tot pr s,
   reach tot pr s ->
   length (running_live s) <= length (lb s) /\
-  (lowered s = false -> length (running_live s) <= total s).
+  (length (lb s) <= total s -> length (running_live s) <= total s).
 Proof. exact rs_running_le_total. Qed.
 Print Assumptions C14_running_le_total.
+
+(* the audit's second statement, on its own *)
+Theorem C14_running_le_total_after_drain : forall tot pr s, reach tot pr s ->
+  length (lb s) <= total s -> length (running_live s) <= total s.
+Proof. exact rs_running_le_total_after_drain. Qed.
+Print Assumptions C14_running_le_total_after_drain.
+
+(* while the limiter is full no step increases the number of borrowers (a release may hand its token over:
+   ex_handover_at_full shows that `incl` does NOT hold at exactly full); while it is OVER-full - total lowered below the
+   number of borrowers - no new borrower appears at all, the excess only drains *)
+Theorem C14_no_grant_while_full : forall tot pr s o, reach tot pr s ->
+  (total (fst (step s o)) <= length (lb s) -> length (lb (fst (step s o))) <= length (lb s)) /\
+  (total (fst (step s o)) < length (lb s) -> incl (lb (fst (step s o))) (lb s)).
+Proof. exact rs_no_grant_while_full. Qed.
+Print Assumptions C14_no_grant_while_full.
 
 (* a token is granted only while one is free: no step (of any state) raises the number of borrowers above
    max(previous number, current total) *)
@@ -25,29 +42,43 @@ Theorem C14_grant_only_if_free : forall s o,
 Proof. exact step_lb_bound. Qed.
 Print Assumptions C14_grant_only_if_free.
 
-(* the token is given back on every exit path: borrowers = exactly the calls between acquire and release;
-   a finished call (returned, raised, cancelled before start, abandoned) holds none; when every call is over
-   the limiter is pristine *)
+(* the token is given back on every exit path: borrowers = exactly the calls between acquire and release; a call that
+   is over (returned, raised incl. BaseException and the function's own CancelledError, cancelled at the entry checkpoint
+   or in the wait queue with/without a grant, natively cancelled in the limiter's shielded checkpoint / in the queue /
+   while awaiting the result, abandoned, thread start failed) holds none; when every call is over the limiter is pristine *)
 Theorem C14_token_released_all_paths : forall tot pr s,
   reach tot pr s ->
   NoDup (lb s) /\ (forall c, In c (lb s) <-> holds (calls s c) = true) /\
-  (forall c r, ph (calls s c) = PDone r -> ~ In c (lb s) /\ ~ In c (lq s)) /\
+  (forall c, (exists r, ph (calls s c) = PDone r) \/ (exists o, ph (calls s c) = PPostCk o) ->
+             ~ In c (lb s) /\ ~ In c (lq s)) /\
   ((forall c, ph (calls s c) = PNone \/ exists r, ph (calls s c) = PDone r) -> lb s = [] /\ lq s = []).
 Proof. exact rs_token_released_all_paths. Qed.
 Print Assumptions C14_token_released_all_paths.
 
-(* faithful results: what run_sync returns/raises is the payload of the thread's report (StopIteration wrapped
-   in RuntimeError); a finished function's result is dropped only if abandon_on_cancel was set and the caller's
-   scope was cancelled; a report for a caller that is not (abandoned and cancelled) always resolves the future *)
+(* whichever step takes a call out of a token-holding phase (any op, incl. NativeCancel+Resume, SpawnFail) removes it
+   from the borrowers in that very step *)
+Theorem C14_exit_steps_release : forall tot pr s o c,
+  reach tot pr s -> holds (calls s c) = true -> holds (calls (fst (step s o)) c) = false ->
+  In c (lb s) /\ ~ In c (lb (fst (step s o))).
+Proof. exact rs_exit_steps_release. Qed.
+Print Assumptions C14_exit_steps_release.
+
+(* faithful results: what run_sync returns/raises is the payload of the thread's report (StopIteration wrapped in
+   RuntimeError - PEP 479, a deliberate deviation from "exactly the exception") or, when no thread could be started,
+   the RuntimeError of Thread.start() with nothing run; a finished function's result is dropped only if abandon_on_cancel
+   was set and the caller's scope was cancelled, or the caller was cancelled NATIVELY inside the call scope; a report for
+   a caller that is neither always resolves the future *)
 Theorem C14_result_faithful : forall tot pr s c,
   reach tot pr s ->
   (forall o, (ph (calls s c) = PPostCk o \/ exists b, ph (calls s c) = PDone (DRet o b)) ->
-             exists p, fin (calls s c) = Some p /\ o = wrap p) /\
+             (exists p, fin (calls s c) = Some p /\ o = wrap p) \/ (o = OSpawn /\ fin (calls s c) = None)) /\
   (forall s' o, step s (Resume c) = (s', RRet o) ->
-             (exists p, fin (calls s c) = Some p /\ o = wrap p) /\ ph (calls s' c) = PPostCk o) /\
+             (exists p, fin (calls s c) = Some p /\ o = wrap p) /\
+             ph (calls s' c) = (match o with OCancelled => PDone (DRet OCancelled false) | _ => PPostCk o end)) /\
   (forall p, ph (calls s c) = PDone DCancelled -> fin (calls s c) = Some p ->
-             abandon (calls s c) = true /\ walk (chain (calls s c)) = true) /\
+             (abandon (calls s c) = true /\ walk (chain (calls s c)) = true) \/ ncr (calls s c) = true) /\
   (forall w p, wk s w = WExec c -> abandon (calls s c) = false \/ walk (chain (calls s c)) = false ->
+             ncr (calls s c) = false ->
              fut (calls (fst (step s (ThreadFinish w p))) c) = FRes (wrap p)).
 Proof. exact rs_result_faithful. Qed.
 Print Assumptions C14_result_faithful.
@@ -59,22 +90,57 @@ Theorem C14_result_written_by_thread_only : forall s o c p,
 Proof. exact fin_written_by_finish. Qed.
 Print Assumptions C14_result_written_by_thread_only.
 
-(* without abandon_on_cancel: between entering the call scope and the report nothing is delivered to the caller,
-   whatever is cancelled; it then receives the reported result; the cancellation is still pending and is raised by
-   its next checkpoint *)
+(* without abandon_on_cancel and without a native cancellation of the caller inside the call scope (ncr = false; the
+   hypothesis is necessary, see C14_native_cancel_defeats_non_abandon): between entering the call scope and the report
+   nothing is delivered to the caller, whatever AnyIO scope is cancelled; it then receives the reported result; the
+   cancellation is still pending and is raised by its next checkpoint *)
 Theorem C14_cancel_deferred : forall tot pr s c w,
-  reach tot pr s -> ph (calls s c) = PAwait w -> abandon (calls s c) = false ->
+  reach tot pr s -> ph (calls s c) = PAwait w -> abandon (calls s c) = false -> ncr (calls s c) = false ->
   fut (calls s c) <> FCancelled /\
   (fut (calls s c) = FPending -> step s (Resume c) = (s, RRejected)) /\
   (forall o, o <> Resume c ->
-     ph (calls (fst (step s o)) c) = PAwait w /\ abandon (calls (fst (step s o)) c) = false) /\
+     ph (calls (fst (step s o)) c) = PAwait w /\ abandon (calls (fst (step s o)) c) = false /\
+     (o <> NativeCancel c -> ncr (calls (fst (step s o)) c) = false)) /\
   (forall o, fut (calls s c) = FRes o ->
      let s' := fst (step s (Resume c)) in
      snd (step s (Resume c)) = RRet o /\ (exists p, fin (calls s c) = Some p /\ o = wrap p) /\
-     ph (calls s' c) = PPostCk o /\ chain (calls s' c) = chain (calls s c) /\
-     snd (step s' (Resume c)) = (if walk (chain (calls s c)) then RCancelled else RDone)).
+     chain (calls s' c) = chain (calls s c) /\
+     (o = OCancelled -> ph (calls s' c) = PDone (DRet OCancelled false)) /\
+     (o <> OCancelled -> ph (calls s' c) = PPostCk o /\
+        snd (step s' (Resume c)) = (if walk (chain (calls s c)) then RCancelled else RDone))).
 Proof. exact rs_cancel_deferred. Qed.
 Print Assumptions C14_cancel_deferred.
+
+(* the ghost ncr is set by a native cancellation that hits the caller inside the call scope, by nothing else *)
+Theorem C14_ncr_set_by_native_only : forall s o c,
+  ncr (calls (fst (step s o)) c) = true ->
+  ncr (calls s c) = true \/ (o = NativeCancel c /\ inside (calls s c) = true).
+Proof. exact ncr_set_by_native. Qed.
+Print Assumptions C14_ncr_set_by_native_only.
+
+(* DOCUMENTED SCOPE (DESIGN 11.4: AnyIO shields do not stop native Task.cancel()).  The STRONG bound - functions
+   executing on behalf of abandon_on_cancel=False calls, whatever happened to their callers, all hold a token, hence
+   are <= total when the limiter is not over-full - holds for every op sequence in which no native cancellation hits a
+   caller inside the call scope ... *)
+Theorem C14_nonabandon_running_le_total : forall tot pr ops,
+  no_native_cancel_while_running (init tot pr) ops = true ->
+  let s := final step (init tot pr) ops in
+  (forall c, In c (exec s) -> abandon (calls s c) = false -> In c (lb s) /\ exists w, ph (calls s c) = PAwait w) /\
+  length (running_nonabandon s) <= length (lb s) /\
+  (length (lb s) <= total s -> length (running_nonabandon s) <= total s).
+Proof. exact rs_nonabandon_running_le_total. Qed.
+Print Assumptions C14_nonabandon_running_le_total.
+
+(* ... and is refuted without that hypothesis: one native cancel of a running NON-abandoned call releases its token while
+   its function still executes; a second function starts under total = 1; the first function's result is dropped *)
+Theorem C14_native_cancel_defeats_non_abandon :
+  exists ops, let s := final step (init 1 false) ops in
+    no_native_cancel_while_running (init 1 false) ops = false /\
+    total s = 1 /\ lb s = [1] /\ exec s = [1; 0] /\ running_nonabandon s = [1; 0] /\
+    abandon (calls s 0) = false /\ ph (calls s 0) = PDone DCancelled /\ ncr (calls s 0) = true /\
+    fut (calls (fst (step s (ThreadFinish 0 (PVal 7)))) 0) = FCancelled.
+Proof. exact rs_native_cancel_defeats_non_abandon. Qed.
+Print Assumptions C14_native_cancel_defeats_non_abandon.
 
 (* check_cancelled() in the thread answers exactly "the caller's enclosing scopes are effectively cancelled",
    for abandon on and off; without abandon the worker is handed the ENCLOSING scope of the shielded call scope *)
@@ -98,11 +164,27 @@ Theorem C14_call_scope_itself_is_blind : forall l, walk ((false, true) :: l) = f
 Proof. exact walk_call_scope_shielded. Qed.
 Print Assumptions C14_call_scope_itself_is_blind.
 
+(* from_thread.run(coro) with a coroutine that really waits, called from the thread: its task is cancelled iff the scope
+   handed to the worker or one of its VISIBLE ancestors is cancelled.  Caller inside the call scope: same answer as
+   check_cancelled (so under a cancelled uninterruptible caller the round trip raises CancelledError instead of
+   returning the value).  Abandoned thread whose caller has left (F42 / 1940035): never cancelled, although
+   check_cancelled still raises.  Caller torn away natively: only the handed scope's own flag counts. *)
+Theorem C14_from_thread_run_spec : forall s w c,
+  wk s w = WExec c ->
+  step s (ThreadRunAsync w) = (s, RRT (walk (handed_visible (calls s c)))) /\
+  (inside (calls s c) = true -> walk (handed_visible (calls s c)) = walk (chain (calls s c))) /\
+  (abandon (calls s c) = true -> inside (calls s c) = false -> walk (handed_visible (calls s c)) = false) /\
+  (abandon (calls s c) = false -> inside (calls s c) = false ->
+     walk (handed_visible (calls s c)) = match chain (calls s c) with (cc, _) :: _ => cc | [] => false end).
+Proof. exact from_thread_run_spec. Qed.
+Print Assumptions C14_from_thread_run_spec.
+
 (* worker pool: LIFO reuse, a new worker only when none is idle, a worker is handed a call only when free and only
    by that call's own segment, a call sits on at most one worker *)
 Theorem C14_worker_reuse : forall tot pr s,
   reach tot pr s ->
-  (forall c, ph (calls s c) = PLimYield \/ (ph (calls s c) = PWaitLim /\ evset (calls s c) = true /\ wcanc (calls s c) = false) ->
+  (forall c, wcanc (calls s c) = false ->
+             ph (calls s c) = PLimYield \/ (ph (calls s c) = PWaitLim /\ evset (calls s c) = true) ->
      let s' := fst (step s (Resume c)) in
      let w := hd (nwork s) (idle s) in
      ph (calls s' c) = PAwait w /\ wk s' w = WQueued c /\ wk s w = WFree /\ ~ In w (idle s') /\
